@@ -156,3 +156,37 @@ def title_framing(ctx, rule):
                      % (m.group(2) if m else None), {"witness": "titles are not separated / separated on a character that titles may contain"})
     except OSError:
         ctx.assumed(rule, key, js, "javascript/src/index.js not present: JS side of the framing not checked")
+
+
+def bridge_arithmetic(ctx, rule):
+    """R01.j: the bridge does no arithmetic that can trap — no subtraction, multiplication or shift on the way in or out (its
+    only arithmetic is the capacity sum `bytelen + results.len()`, a sum of lengths of live buffers).  The expected count of
+    trapping operations is zero; the number of bridge bodies scanned is the vacuity guard."""
+    w = _wasm(ctx, ("",))
+    if isinstance(w, str):
+        ctx.fail(rule, "bridge-extraction", "-", "the WASM bridge could not be analysed: %s" % w[-300:], kind="S")
+        return
+    wf = w[""]
+    adds = 0
+    bad = []
+    for b in wf.fns():
+        for bi, t in b.iter_terms():
+            if t["k"] != "assert" or t["msg"].get("kind") != "Overflow":
+                continue
+            if t["msg"].get("op") == "Add":
+                adds += 1
+            else:
+                bad.append((b, bi, t))
+        for bi, si, st in b.iter_stmts():
+            if st["k"] == "assign" and st["rv"]["k"] == "binop" and st["rv"]["op"] in ("Sub", "SubUnchecked", "Mul", "Shl", "Shr", "Div", "Rem") \
+                    and not b.blocks[bi]["cleanup"]:
+                bad.append((b, bi, st))
+    for b, bi, node in bad:
+        ctx.fail(rule, "bridge-arithmetic:%s" % b.id, where(b, bi, node), "the bridge function %s performs `%s`: a subtraction / product "
+                 "of lengths can trap (checked build) or wrap into a huge allocation request" % (b.id, (node.get("dbg") or "")[:80]),
+                 {"witness": "a store whose only hit has an empty title: `bytelen - results.len()` underflows in get_result_titles"}, kind="S")
+    if not bad:
+        ctx.ok(rule, "bridge-arithmetic", "rust/wasm/src/lib.rs", "no subtraction / multiplication / shift in the bridge (%d checked "
+               "additions of buffer lengths)" % adds, kind="S")
+    ctx.count("bridge_checked_additions", adds)
+    ctx.floor(rule, "bridge_bodies_scanned", len(list(wf.fns())), 8)
